@@ -222,14 +222,17 @@ def run(tier, seed):
                 "ModelSaver, Logger; accessors, CSV and saved files compared afterwards")
     inv = ["TypeOK", "OnSchedule", "Protocol", "StopHonoured", "Complete"]
     # single runs cut short by a stop injected at every event; second runs without injection
-    res = tc.mc(cfg_space(tier, '{"no"}'), maxinj=1, invariants=inv, timeout=3400)
+    # (thorough tier: TLC still checks every behaviour; a uniform sample of them is decoded for the replay - decoded, the
+    # millions of exported behaviours took 18 GB and the check was killed on a machine that was busy otherwise)
+    smp = (lambda n, *f: None) if tier == "quick" else (lambda n, *f: (n, seed) + f)
+    res = tc.mc(cfg_space(tier, '{"no"}'), maxinj=1, invariants=inv, timeout=3400, export_sample=smp(20000))
     chk.add_tlc(res, "Train.tla periodic callbacks, one run, stop injected at every event")
     two = '{"keep", "clear"}' if tier == "quick" else '{"keep", "clear", "keepStop"}'
-    res2 = tc.mc(cfg_space(tier, two), maxinj=0 if tier == "quick" else 1, invariants=inv, timeout=3400)
+    res2 = tc.mc(cfg_space(tier, two), maxinj=0 if tier == "quick" else 1, invariants=inv, timeout=3400, export_sample=smp(20000))
     chk.add_tlc(res2, "Train.tla periodic callbacks, second fit() on the same callback objects")
     # a first run ended by an exception raised in a user callback at any event (no stop injected), then a second
     # fit() on the same objects with nothing reset in between
-    res3 = tc.mc(cfg_space(tier, '{"abort"}'), maxinj=0, invariants=inv, timeout=3400)
+    res3 = tc.mc(cfg_space(tier, '{"abort"}'), maxinj=0, invariants=inv, timeout=3400, export_sample=smp(12000, "RZ"))
     chk.add_tlc(res3, "Train.tla periodic callbacks, fit() after a run aborted by a raising user callback")
     for r in (res, res2, res3):
         if r.violation:
@@ -243,6 +246,9 @@ def run(tier, seed):
     nab = 250 if tier == "quick" else 6000
     behs += rng.sample(ab, nab) if len(ab) > nab else ab
     chk.extra["aborted_first_runs_replayed"] = min(len(ab), nab)
+    del ab
+    for r in (res, res2, res3):        # hundreds of thousands of exported behaviours: only the sample is kept
+        r.exports = []
     for n, beh in enumerate(behs):
         cfg = beh["cfg"]
         carry = beh["carry"]
